@@ -158,6 +158,9 @@ func (m *monC16) Finish(rc *RunCtx) {
 			if h.zeit > e.LatestHarv.Zeit() {
 				rc.Violate("C16", "harvest_after_latest_date", fmt.Sprintf("%s harvested on %s, configured latest harvest date %s", e.Crop, DateOfZeit(h.zeit), e.LatestHarv), h.zeit, 0, nil)
 			}
+			if row != nil && row.FixedHarvest {
+				rc.Cov("harvests_under_a_table_row_without_latest_date", 1)
+			}
 			if h.zeit == e.LatestHarv.Zeit() {
 				rc.Cov("harvests_forced_at_latest_date", 1)
 			} else {
@@ -247,7 +250,7 @@ func c16Scenario(seed uint64, idx int) *Scenario {
 	}
 	e1, e2 := &sc.Rotation[1], &sc.Rotation[2]
 	r1, r2 := sc.AutoRows[e1.Crop], sc.AutoRows[e2.Crop]
-	if r1 == nil || r2 == nil || e1.Crop == e2.Crop || e2.Sow.Zeit() >= sc.End.Zeit()-30 {
+	if r1 == nil || r2 == nil || e1.Crop == e2.Crop || e2.Sow.Zeit() >= sc.End.Zeit()-30 || r1.FixedHarvest {
 		return sc
 	}
 	for i := 2; i < len(sc.Rotation); i++ {
